@@ -32,6 +32,11 @@ EucFails(e) ==
   \cup (IF \E a \in 1..n : \E b \in 1..n : ~SqrtOK(o.d3[a][b], SqDist(e.pts[a], e.pts[b]))
         THEN {"ClosedForm|euclidean_distance"} ELSE {})
   \cup (IF o.d3b # o.d3 THEN {"Stable|euclidean_distance"} ELSE {})
+  \* Grid.node_number: the node reported for an integer query point is at minimal (squared) distance
+  \cup (IF \E k \in 1..Len(o.queries) :
+            LET r == o.nearest[k] + 1 IN
+            r < 1 \/ r > n \/ \E a \in 1..n : SqDist(e.pts[a], o.queries[k]) < SqDist(e.pts[r], o.queries[k])
+        THEN {"NearestNode|Grid.node_number"} ELSE {})
 \* all tuples of the Cartesian product of the axes, as a set; each exactly once
 ProductSet(axes) == IF Len(axes) = 2 THEN {<<a, b>> : a \in {axes[1][k] : k \in 1..Len(axes[1])}, b \in {axes[2][k] : k \in 1..Len(axes[2])}}
                     ELSE {<<a, b, c>> : a \in {axes[1][k] : k \in 1..Len(axes[1])}, b \in {axes[2][k] : k \in 1..Len(axes[2])},
